@@ -388,6 +388,10 @@ func (e *dbEnv) record(ops []base.Operation, kinds []string) error {
 			return errors.WithMessage(err, "read block states")
 		}
 
+		if len(sts) < 1 {
+			return errors.Errorf("block %d lists a states item but no state could be read", h)
+		}
+
 		for _, st := range sts {
 			b.States[st.Key()] = st
 
@@ -516,6 +520,15 @@ func (e *dbEnv) dropFrom(h base.Height) error {
 
 	if _, err := isaacblock.RemoveBlocksFromLocalFS(e.W.Root, h); err != nil {
 		return errors.WithMessage(err, "remove blocks from local fs")
+	}
+
+	// isaac.BlockItemReaders caches the item-file index per height: start with fresh readers or the model would be filled
+	// from the index of the removed block
+	e.W.Readers.Close()
+
+	e.W.Readers = isaac.NewBlockItemReaders(e.W.Root, e.W.Encs, nil)
+	if err := e.W.Readers.Add(isaacblock.LocalFSWriterHint, isaacblock.NewDefaultItemReaderFunc(3)); err != nil {
+		return err
 	}
 
 	return nil
